@@ -213,6 +213,33 @@ func (g *Engine) registerHashIntrinsics() {
 		}
 		return Tuple{total, Iface{}}
 	}
+	// fmt.Fprintf(w, format) with no arguments into an abstract hash: the format is written verbatim
+	// iff it contains no '%'; otherwise fmt rewrites it (e.g. "%!s(MISSING)"): modelled as arbitrary bytes
+	I["fmt.Fprintf"] = func(e *Exec, fn *ssa.Function, a []Value, pos token.Pos) Value {
+		w := a[0].(Iface)
+		h, ok := w.v.(*AbsHash)
+		if !ok {
+			e.unsupported("fmt.Fprintf to %T", w.v)
+		}
+		format := a[1].(*Str)
+		if args := a[2].(*Slice); !args.isNil() && !(args.len.isConst() && args.len.k == 0) {
+			e.unsupported("fmt.Fprintf with arguments")
+		}
+		hasPct := e.tb.False()
+		for i := 0; i < e.strMax(format); i++ {
+			ki := e.tb.K(64, uint64(i))
+			hasPct = e.tb.Or(hasPct, e.tb.And(e.tb.Cmp(OSlt, ki, format.len), e.tb.Cmp(OEq, e.strByte(format, ki), e.tb.K(8, '%'))))
+		}
+		if e.branch(hasPct) {
+			n := e.tb.Conv(e.tb.Fresh("v", 6), 64, false)
+			o := e.newBObj(n, 63, "fmt-rewritten")
+			o.base = e.tb.FreshArr("fmt")
+			h.n = e.hashWrite(h.data, h.n, &Slice{b: o, off: e.tb.K(64, 0), len: n, cap: n})
+			return Tuple{n, Iface{}}
+		}
+		h.n = e.hashWrite(h.data, h.n, format)
+		return Tuple{format.len, Iface{}}
+	}
 	I["strings.Join"] = func(e *Exec, fn *ssa.Function, a []Value, pos token.Pos) Value {
 		elems := a[0].(*Slice)
 		sep := a[1].(*Str)
